@@ -32,7 +32,9 @@ pub fn eval_c17(st: &State) -> Eval {
         ok
     };
     let t = tol(st);
-    for q in 0..n {
+    // large states: a committed subset of the query generators (the first 8, every 97th, the last 8: the isolated ones)
+    let queries: Vec<usize> = if n > 400 { (0..n).filter(|&q| q < 8 || q % 97 == 0 || q + 8 >= n).collect() } else { (0..n).collect() };
+    for q in queries {
         let case = format!("{}|query={}", st.id, q);
         let extra = [("query", q.to_string())];
         let rp = || replay_text(check, st, &extra);
@@ -132,7 +134,8 @@ pub fn eval_c17(st: &State) -> Eval {
 /// C17 families: all subsets of small lattices (so that r-tree inner nodes and many equidistant candidates occur).
 pub fn c17_families(thorough: bool) -> Vec<(String, Vec<State>)> {
     let mut fams = vec![];
-    let boxes = box_menu(false);
+    // the three ordinary boxes and the two extreme length scales (2^-40, 2^20): shifts and distances must scale
+    let boxes: Vec<BoxSpec> = box_menu(false).into_iter().chain(scaled_boxes()).collect();
     for b in &boxes {
         for periodic in [false, true] {
             // 1D: all subsets of L1
@@ -177,6 +180,13 @@ pub fn c17_families(thorough: bool) -> Vec<(String, Vec<State>)> {
             }
         }
     }
+    // medium / large pools and big-cell states (r-tree depth > 2, hundreds of candidates, many nearly equidistant)
+    for (desc, sts) in medium_families(thorough, &[1, 2, 3], &[false, true]) {
+        let sts: Vec<State> = if thorough { sts } else { sts.into_iter().take(6).collect() };
+        fams.push((desc, sts));
+    }
+    fams.push(("3R big cells".to_string(), bigcell_family(thorough)));
+    fams.push(("large states (1000-2000 generators: uniform, dense cluster + isolated generators)".to_string(), large_states(thorough)));
     fams
 }
 
